@@ -19,13 +19,30 @@ def E_owner(P, f):
 def run(R):
     P = R.prog
     from . import rules_c16
-    rules_c16.run_keys(R, rid="C05.key", owner_prefix="sqlgrep::execution::join", floor=2)
     R.rule("C05.err", "a missing joined file, table or join column reaches the caller as an error (Try::branch -> FromResidual), never an empty result")
     R.rule("C05.nullkey", "the join index is a SQL-equality site: NULL keys are neither inserted nor looked up")
     R.rule("C05.pairs", "for an input row every partner row yields one execute call and one merge of its result on every path; the only other "
                         "exit of the partner loop is an error; partners are traversed in joined-file order")
     R.rule("C05.outer", "the OUTER row has one NULL per joined column and is produced only without a partner under is_outer && allow_outer")
     R.rule("C05.side", "both orientations of `ON a.x = b.y` map the queried table's column to joiner_column and the joined table's to joined_column")
+    # ---- partner order: joined rows stay in joined-file order (they are only ever appended)
+    R.rule("C05.order", "the rows of the joined file keep their file order: the join code never sorts, reverses, dedups or otherwise "
+                        "permutes a container of rows (partners of one key come out in the order they were read)")
+    REORDER = re.compile(r"::(sort|sort_by|sort_by_key|sort_unstable|sort_unstable_by|sort_unstable_by_key|sort_by_cached_key|reverse|rotate_left|"
+                         r"rotate_right|swap|swap_remove|dedup|dedup_by|dedup_by_key|retain|select_nth_unstable\w*)$|Iterator::rev$|binary_heap::BinaryHeap")
+    n_ord = 0
+    for g0 in sorted(P.fns.values(), key=lambda g: g.key):
+        if g0.target != "lib" or g0.derived or not g0.spath.startswith("sqlgrep::execution::join::"):
+            continue
+        for c in g0.calls:
+            n_ord += 1
+            if REORDER.search(short(c.name)) and any("data_model::Row" in (a.get("ty") or "") for a in c.args[:1]):
+                R.violation("C05.order", "%s|%s" % (E_owner(P, g0).spath.split("::")[-1], short(c.name).split("::")[-1]),
+                            "%s calls %s on rows of the joined table: the partners of a key are no longer guaranteed to come out in "
+                            "joined-file order (an unstable or key-only sort permutes rows with equal keys)" % (g0.path, short(c.name)), [c.loc()])
+    if not any(fd.rule == "C05.order" for fd in R.findings):
+        R.ok("C05.order", "join", "%d calls in the join module, none reorders rows" % n_ord, "src/execution/join.rs")
+    rules_c16.run_keys(R, rid="C05.key", owner_prefix="sqlgrep::execution::join", floor=2)
     jf = R.need_fn(J + "JoinedTableData::execute")
     for pat, what in ((r"^std::fs::File::open$", "File::open"), (r"ExecutionEngine::get_table$", "get_table"),
                       (r"TableDefinition::index_for$", "index_for"), (r"ExecutionEngine::execute$", "execute")):
